@@ -68,7 +68,7 @@ func c27Body(p c27Params) func() {
 				}
 			}
 		}()
-		params := &opcua.SubscriptionParameters{Interval: 100 * time.Millisecond}
+		params := &opcua.SubscriptionParameters{Interval: 100 * time.Millisecond, MaxKeepAliveCount: 10, LifetimeCount: 1000}
 		vrt.Settle()
 		n := vnet.Net()
 		base := 0
